@@ -165,7 +165,8 @@ func (rule *RulePyflakes) parseNextError(stdout []byte, pos *Pos) ([]byte, error
 
 	// This method needs to be thread-safe since concurrentProcess.run calls its callback in a different goroutine.
 	rule.mu.Lock()
-	rule.Errorf(pos, "pyflakes reported issue in this script: %s", msg)
+	// The message comes from an external command. Escape characters such as \r to keep the error in one line
+	rule.Errorf(pos, "pyflakes reported issue in this script: %s", escapeNonPrint(string(msg)))
 	rule.mu.Unlock()
 
 	return b, nil
